@@ -152,7 +152,7 @@ PROPS["C02"] = P([("ladder", "fast", 48, 1.0)],
     "extrapolated vs plain on the finest common rung, library error figures vs harness evaluation).",
     quick_runs=48, quick_budget_s=150, thorough_budget_s=1800,
     expect_probes=["order_judged", "extrapolated_ladder", "plain_ladder", "reused_object", "extrapolated_vs_plain_compared",
-                   "geometry_0", "geometry_1", "geometry_2"])
+                   "anisotropic_base_grid", "uniform_base_grid"])
 
 PROPS["C14"] = P([("trisolve", "fast", 5000, 0.4), ("trisolve", "trace", 2000, 0.3), ("trisolve", "asan", 2000, 0.3)],
     "histories {construct(n, cyclic?), set entries, solve(b), solve(b) again, solve(b') ...} for n = 2,3,4..4096 over SPD "
